@@ -39,7 +39,7 @@ ASSUMPTIONS = ['astropy.table / astropy.io.fits are trusted to store and return 
                'geometry is compared exactly (tolerance 0), angles in degrees exactly']
 
 CAT = ['point', 'circle', 'ellipse', 'circleannulus', 'ellipseannulus', 'rotbox', 'box', 'poly3', 'poly5', 'regpoly', 'ellipse_rad',
-       'poly_origin', 'circle_origin']
+       'poly_origin', 'circle_origin', 'poly_origin_kw']
 NONREP = ['sky_circle', 'line', 'text', 'rectangleannulus', 'compound']
 INC_PATTERNS = ['absent', 'all_false', 'alt_False_True', 'alt_0_1', 'first_false']
 COMP_PATTERNS = ['absent', 'all', 'partial', 'partial_first', 'partial_desc', 'partial_mixed', 'all_desc', 'from_zero', 'zero_then_absent']
@@ -79,6 +79,9 @@ def make(name, include='absent', component=None):
     if name == 'poly_origin':
         # zero is a coordinate value like any other: the last vertex is the pixel origin
         return R.PolygonPixelRegion(PixCoord([4.0, 0.0, 0.0], [0.0, 3.0, 0.0]), **kw)
+    if name == 'poly_origin_kw':
+        # vertices given relative to an origin= (the region holds absolute vertices)
+        return R.PolygonPixelRegion(PixCoord([1.0, 6.0, 3.5, 0.5], [0.5, 1.0, 5.0, 4.0]), origin=PixCoord(10.0, 20.0), **kw)
     if name == 'circle_origin':
         return R.CirclePixelRegion(c(0.0, 0.0), 1.5, **kw)
     if name == 'poly5':
@@ -166,16 +169,23 @@ def _roundtrip(regs, medium):
         else:
             d = os.path.join(env.scratch(), f'c12_{os.getpid()}')
             os.makedirs(d, exist_ok=True)
-            path = os.path.join(d, f'rt_{medium}.fits')
+            # file_ext: the format is inferred from the extension, every registered FITS extension in turn
+            ext = {'file_ext': ['.fits', '.fit', '.fts', '.FITS', '.Fts'][len(regs) % 5]}.get(medium, '.fits')
+            path = os.path.join(d, f'rt_{medium}{ext}')
             if os.path.lexists(path):
                 os.remove(path)
             if medium == 'file_region' and len(regs) == 1:
                 regs[0].write(path, format='fits')
+            elif medium == 'file_ext':
+                if len(regs) == 1:
+                    regs[0].write(path)
+                else:
+                    Regions(regs).write(path)
             else:
                 Regions(regs).write(path, format='fits')
             if medium == 'file_multi':
                 _add_extensions(path)
-            out = list(Regions.read(path, format='fits'))
+            out = list(Regions.read(path) if medium == 'file_ext' else Regions.read(path, format='fits'))
             os.remove(path)
         warns = [str(x.message) for x in w]
     return out, warns
@@ -511,7 +521,7 @@ def list_cases(tier):
     out = []
     incs = ['absent', 'all_false', 'alt_0_1'] if tier == 'quick' else INC_PATTERNS
     comps = ['absent', 'from_zero', 'partial', 'partial_desc', 'partial_mixed', 'zero_then_absent'] if tier == 'quick' else COMP_PATTERNS
-    media = ['memory', 'file', 'file_multi'] if tier == 'quick' else ['memory', 'file', 'file_region', 'file_multi']
+    media = ['memory', 'file', 'file_multi', 'file_ext'] if tier == 'quick' else ['memory', 'file', 'file_region', 'file_multi', 'file_ext']
     maxlen = 2 if tier == 'quick' else 3
     lists = []
     for L in range(1, maxlen + 1):
@@ -527,6 +537,8 @@ def list_cases(tier):
                     if m == 'file_region' and len(names) != 1:
                         continue
                     if m == 'file_multi' and (len(names) in (2, 3) or incp != incs[-1]):
+                        continue
+                    if m == 'file_ext' and (len(names) in (2, 3) or incp != incs[0] or compp != comps[0]):
                         continue
                     if m != 'memory' and tier == 'quick' and len(names) == 2 and (incp != 'absent' and compp != 'absent'):
                         continue
